@@ -26,7 +26,12 @@ PROPERTIES = {
                  "TSNs at or before the cumulative point or already held as duplicates (nothing else changes then), and "
                  "otherwise leaves the cumulative point fully consolidated - the TSN after it is not waiting in the "
                  "out-of-order set - wherever the 32-bit numbers wrap (F-13 found and fixed), keeps only TSNs serially after "
-                 "the point, and adds none but the new one. Reduced: the general statement about every "
+                 "the point, and adds none but the new one. Value and type: _data_channel_send queues exactly one message for the "
+                 "channel - text as its UTF-8 bytes under payload protocol identifier 51, binary as is under 53, the empty "
+                 "string / empty bytes as one zero byte under 56 / 57 - and _data_channel_receive emits, for each of these "
+                 "identifiers, exactly one 'message' event on the channel registered under that stream, carrying the decoded "
+                 "text (56: the empty string) or the bytes (57: empty bytes) - observed through a ghost log of the payload and "
+                 "its type. Reduced: the general statement about every "
                  "yielded run (consecutive TSNs, B..E, concatenation), _mark_received, _receive_data_chunk, the send side and "
                  "the whole-history 'prefix of the sends' statement are not decided.",
         "note": "add_chunk assumes what its only caller establishes: no duplicate TSN in the queue (filtered by _mark_received) "
@@ -232,7 +237,8 @@ PROPERTIES = {
                  "covering the streams still queued, so a close() issued while an earlier reset is in flight is not stranded. "
                  "RTCSctpTransport._set_state: when the association is established every negotiated channel is open and the others "
                  "are as they were; when it is closed every registered channel is closed and unregistered; other states leave "
-                 "the channels alone. Reduced: id reuse after close, the accounting across "
+                 "the channels alone. _data_channel_send adds exactly the queued byte count to bufferedAmount (flush takes the "
+                 "same count off). Reduced: id reuse after close, the accounting over whole histories of "
                  "send/flush, and close() end to end over both peers are not under contract.",
         "note": "emit() is modelled as appending the event name to a ghost list; the event-log postconditions assume listeners "
                 "do not re-enter, while the at_emit/after_emit obligations are exactly what makes re-entry harmless. "
